@@ -12,7 +12,7 @@ HEADER = ('From J1939 Require Import Base CodecGlue Model21.\nFrom J1939.gen Req
           '  map fl (wab s) ++ [[-2]] ++ map fl (wba s) ++ [[-2]] ++ map ol (evb s) ++ [[-2]] ++\n'
           '  [[if quiet s then 1 else 0]].\n')
 HEADER22 = ('From J1939 Require Import Base CodecGlue Model21 Model22.\nFrom J1939.gen Require Import Codec Tp21Gen CaGen Tp22Gen.\n'
-            'From J1939P Require Import Flat MpgProofs Net21 Net22 Net22Bam.\nOpen Scope Z_scope.\nSet Warnings "-abstract-large-number".\n'
+            'From J1939P Require Import Flat MpgProofs Net21 Net22 Net22Bam Net22Mpg.\nOpen Scope Z_scope.\nSet Warnings "-abstract-large-number".\n'
             'Definition fl (f : frame) : list Z := f_id f :: f_data f.\n'
             'Definition ol (o : out) : list Z := match o with OCb cid prio pgn sa d => cid :: prio :: pgn :: sa :: d | _ => [-1] end.\n'
             'Definition obs (s : net22) : list (list Z) :=\n'
@@ -22,7 +22,27 @@ WINDOWS = [1, 2, 3, 7, 8, 127, 254, 255]
 SIZES = [9, 14, 15, 16, 21, 22, 63, 64, 1784, 1785]
 
 
+def gen_mpg(rng):
+    """several parameter groups of 1..60 bytes with time limits, submitted at one instant to one destination, fitting one
+    multi-PG frame (theorem C11_closed_loop_delivers_every_group)"""
+    sa, da = rng.sample(range(0, 254), 2)
+    groups, room = [], 64
+    for j in range(rng.randint(1, 5)):
+        mx = min(60, room - 4)
+        if mx < 1:
+            break
+        n = rng.choice([1, mx, rng.randint(1, mx)])
+        room -= 4 + n
+        pf = rng.choice([x for x in range(0, 240) if x not in (0xEA, 0xEB, 0xEC, 0xEE, 0x4D, 0x4E, 0x25)])
+        groups.append(dict(dp=rng.choice([0, 0, 1]), pf=pf, prio=rng.randint(0, 7), n=n, seed=rng.getrandbits(30),
+                           tl=rng.choice([1000, 5000, 20000, 100000, rng.randint(1, 4_000_000)])))
+    return dict(mpg=groups, sa=sa, da=da, n=sum(g['n'] for g in groups), fd=True, fnone=rng.random() < 0.3,
+                wa=1, wb=1, lat=rng.choice([1, 500]), biv=None, dp=0, pf=0, prio=0, seed=0)
+
+
 def gen_case(rng, k, big, only=None):
+    if only == 'mpg':
+        return gen_mpg(rng)
     n = rng.choice(SIZES) if rng.random() < 0.3 else rng.randint(9, 300 if big else 80)
     if not big and n > 400:
         n = rng.randint(9, 80)
@@ -54,6 +74,10 @@ def scenario(c):
     dll = 'j1939-22' if c.get('fd') else 'j1939-21'
     stacks = [dict(dll=dll, max_cmdt=c['wa'], bam_iv=c.get('biv'), subs=[dict(cid=1, filt=c['sa'])], cas=[]),
               dict(dll=dll, max_cmdt=c['wb'], subs=subs_b, cas=[])]
+    if c.get('mpg'):
+        script = [dict(t=1000, s=0, op='send', a=[g['dp'], g['pf'], c['da'], g['prio'], c['sa'], dict(seed=g['seed'], len=g['n']), g['tl'], 3])
+                  for g in c['mpg']]
+        return dict(stacks=stacks, lat=[c['lat']], jit=[1], script=script, horizon=1000 + min(g['tl'] for g in c['mpg']) + 3_000_000)
     npk = (c['n'] + 6) // 7
     script = [dict(t=1000, s=0, op='send', a=[c['dp'], c['pf'], c['da'], c['prio'], c['sa'], dict(seed=c['seed'], len=c['n'])])]
     return dict(stacks=stacks, lat=[c['lat']], jit=[1], script=script,
@@ -78,6 +102,11 @@ def model_text(c, data):
         b = 'sub22 (init_node22 %d None None) 7 (FAddr %d)' % (c['wb'], c['da'] if c['da'] != 255 else (c['sa'] + 1) % 254)
         if c['fnone']:
             b = 'sub22 (%s) 9 FNone' % b
+        if c.get('mpg'):
+            gl = '; '.join('{| u_dp := %d; u_pf := %d; u_prio := %d; u_dat := %s; u_tl := %d |}' % (g['dp'], g['pf'], g['prio'], C.zl(d), g['tl'])
+                           for g, d in zip(c['mpg'], data))
+            s0 = '(fold_left (net22_submit %d %d) [%s] (net22_0 (%s) (%s) 1000))' % (c['sa'], c['da'], gl, a, b)
+            return 'obs (steps22 5%%nat %s) ++ [[-3]] ++ [map fst (tlog22 5%%nat %s)]' % (s0, s0)
         nseg = (c['n'] + 59) // 60
         s0 = '(net22_send (net22_0 (%s) (%s) 1000) %d %d %d %d %d %s)' % (a, b, c['dp'], c['pf'], c['da'], c['prio'], c['sa'], C.zl(data))
         timed = ' ++ [[-3]] ++ [map fst (tlog22 %d%%nat %s)]' % (3 * nseg + 14, s0) if c['da'] == 255 else ''
@@ -101,7 +130,7 @@ def run(work, rng, n, big=False, tag='net', only=None):
         c = gen_case(rng, k, big, only)
         sc = scenario(c)
         res = scen.run(sc)
-        data = list(scen.payload(sc['script'][0]['a'][5]))
+        data = list(scen.payload(sc['script'][0]['a'][5])) if not c.get('mpg') else [list(scen.payload(e['a'][5])) for e in sc['script']]
         impl = observe_impl(sc, res)
         cases.append((c, sc, impl, data))
         res_tx['%s_%d' % (tag, k)] = [e for e in res.trace if e[2] == 'tx' and e[1] == 0]
@@ -112,7 +141,13 @@ def run(work, rng, n, big=False, tag='net', only=None):
         # the oracle on the implementation alone: p delivered exactly once to each subscriber of B, nothing left over
         cbs = [x for x in impl[impl.index([-2], impl.index([-2]) + 1) + 1:-2]]
         want = 2 if c['fnone'] else 1
-        if len(cbs) != want or any(x[4:] != data for x in cbs) or impl[-1] != [1]:
+        if c.get('mpg'):
+            # every group once per subscriber, in submission order, with its own PGN
+            exp = [x for g, d in zip(c['mpg'], data) for x in [(g['dp'] * 65536 + g['pf'] * 256, d)] * want]
+            if [(x[2], x[4:]) for x in cbs] != exp or impl[-1] != [1]:
+                bad.append((c, sc, 'multi-PG closed loop on the implementation: callbacks on B %s, expected every group once per listener in order'
+                            % str([(x[2], len(x) - 4) for x in cbs])[:200]))
+        elif len(cbs) != want or any(x[4:] != data for x in cbs) or impl[-1] != [1]:
             bad.append((c, sc, 'closed loop on the implementation: %d callbacks on B (expected %d with the payload), tables empty=%s'
                         % (len(cbs), want, impl[-1])))
         rc, o = out[name]
@@ -129,7 +164,7 @@ def run(work, rng, n, big=False, tag='net', only=None):
             stamps = got[got.index([-3]) + 1]
             got = got[:got.index([-3])]
             J = max(sc['jit'])
-            txt = [e[0] for e in res_tx[name]][1:]
+            txt = [e[0] for e in res_tx[name]][0 if c.get('mpg') else 1:]
             late = [(k, m, t) for k, (m, t) in enumerate(zip(stamps, txt)) if not (0 <= t - m <= (k + 1) * (J + 1))]
             if len(stamps) != len(txt) or late:
                 mism.append((c, 'timed', stamps[:8], txt[:8]))
